@@ -440,7 +440,21 @@ func getCharset(c *core.Ctx) *charsetModel {
 					nMarks++
 				}
 			}
-			if okConst && !loop && nMarks >= 3 && len(core.Calls(f)) == len(lenCallsOf(f, f.Params[0])) {
+			// the only calls: len(input) and bytes.HasPrefix(input, constant mark)
+			okCalls := true
+			for _, ci := range core.Calls(f) {
+				cc := ci.Common()
+				if core.IsBuiltin(cc, "len") && cc.Args[0] == ssa.Value(f.Params[0]) {
+					continue
+				}
+				if core.CalleeIs(cc, "bytes", "HasPrefix") && cc.Args[0] == ssa.Value(f.Params[0]) {
+					if _, isC := tree.ConstBytes(cc.Args[1]); isC {
+						continue
+					}
+				}
+				okCalls = false
+			}
+			if okConst && !loop && nMarks >= 3 && okCalls {
 				if m.bomFn != nil {
 					core.Bail("two candidate hand-written BOM lookups: %s, %s", m.bomFn.Name(), f.Name())
 				}
